@@ -8,6 +8,7 @@ import (
 	"errors"
 	"fmt"
 	"net"
+	"runtime"
 	"sort"
 	"strings"
 	"sync"
@@ -291,6 +292,7 @@ func runC14(r *Run) {
 			if cl.outcome == "never" {
 				continue
 			}
+			g0 := runtime.NumGoroutine()
 			close(cl.gate)
 			select {
 			case <-cl.finished:
@@ -306,10 +308,22 @@ func runC14(r *Run) {
 			if code[0] == 'g' || code[0] == 'x' || i == len(calls)-1 || (cancelAt >= 0 && cancelAt <= i) {
 				patience = 50 * time.Millisecond // the call is expected to return on this event
 			}
-			select {
-			case got1 = <-retCh:
-				returned = true
-			case <-time.After(patience):
+			// The helper has its outcome; it still has to hand it to the collection loop. When the call is not going to
+			// return on this event, the hand-over shows as the helper's goroutine ending: wait for that (not only for
+			// the clock) before the next release, so that a helper that is descheduled for a few ms is not overtaken.
+			waitFrom := time.Now()
+			for !returned {
+				select {
+				case got1 = <-retCh:
+					returned = true
+					continue
+				default:
+				}
+				el := time.Since(waitFrom)
+				if el >= patience && (runtime.NumGoroutine() < g0 || el >= 50*time.Millisecond) {
+					break
+				}
+				time.Sleep(50 * time.Microsecond)
 			}
 			if returned {
 				// release the rest so that helpers end; they arrive after the decision
@@ -452,7 +466,8 @@ func runC14(r *Run) {
 		r.Count("result:" + strings.SplitN(out, ":", 2)[0])
 		r.Trace()
 	}
-	r.Finish("upstream lists of 1..5 in-memory upstreams (all, or a random tag subset in random order) x concurrent in {-2, 0, 1, 2, 3, 4, 7} x per-helper outcome {NOERROR, NXDOMAIN, SERVFAIL, REFUSED, error, unparsable bytes, never answers} in a scripted arrival order x context cancellation before any arrival / between arrivals / after all; released pool buffers are overwritten")
+	runC14Configured(r)
+	r.Finish("upstream lists of 1..5 in-memory upstreams (all, or a random tag subset in random order) x concurrent in {-2, 0, 1, 2, 3, 4, 7} x per-helper outcome {NOERROR, NXDOMAIN, SERVFAIL, REFUSED, error, unparsable bytes, never answers} in a scripted arrival order x context cancellation before any arrival / between arrivals / after all; released pool buffers are overwritten; plus forwards built by NewForward / Init from decoded plugin arguments: 1..4 entries leading to 4 loopback servers (UDP, TCP, SOCKS5; distinguishable answers, every received query recorded) through their own addr, through dial_addr / socks5 under an addr shared with other entries, or through the plugin-wide socks5, all entries or a tag subset: the multiset of servers that received each query must be that of c cyclically consecutive configured positions, and the reply must be a legitimate one among the contacted servers' answers")
 }
 
 func poison01c14() func() {
